@@ -12,8 +12,8 @@
    C11_exact_partial is PARTIAL: it assumes conv_sound (pyarrow stores a value the library admits as
    `canon`, or raises) -- a statement about pyarrow, validated by the harness on every run. *)
 From Coq Require Import ZArith QArith List Bool.
-Require Import DS.Model.Value DS.Gen.GenPrune DS.Model.Prune DS.Gen.GenSchema DS.Model.Schema.
-Require Import DS.Proofs.PruneProofs DS.Proofs.SchemaProofs.
+Require Import DS.Model.Value DS.Gen.GenPrune DS.Model.Prune DS.Gen.GenSchema DS.Model.Schema DS.Model.SchemaTx.
+Require Import DS.Proofs.PruneProofs DS.Proofs.SchemaProofs DS.Proofs.SchemaTxProofs.
 Import ListNotations.
 Open Scope Z_scope.
 
@@ -106,6 +106,49 @@ Theorem C11_fits_representable : forall (t : ptype) (v : pyval), value_fits t v 
 Proof. exact fits_representable. Qed.
 Print Assumptions C11_fits_representable.
 
+(* ================= explicit transactions (Model/SchemaTx.v): begin / calls, some of which raise and are
+   caught by the caller / commit, rollback or nothing ================= *)
+
+(* A call that raises (tag <> 0) -- append_data refused for any reason, append_files refused at ANY of its
+   files -- adds NOTHING to the transaction's queue, and no call touches the schema or the snapshot list. *)
+Theorem C11_tx_rejected_call_no_trace : forall (conv : atype -> pyval -> option pyval) (w : world) (h : Z) (c : call)
+    (w' : world) (wr : list Z) (t : Z) (added : list dfile),
+  call_step conv w h c = (w', wr, t, added) ->
+  w_schema w' = w_schema w /\ w_snaps w' = w_snaps w /\ (t <> 0 -> added = []).
+Proof. exact call_rejected. Qed.
+Print Assumptions C11_tx_rejected_call_no_trace.
+
+(* A successful commit of ANY transaction (any calls, any of them rejected, any world) publishes exactly one
+   snapshot holding the base files followed by the files queued by the ACCEPTED calls, in call order; when no
+   call queued anything it publishes nothing.  `honest tr`: a call with a non-zero tag contributed []. *)
+Theorem C11_tx_publishes_accepted_only : forall (conv : atype -> pyval -> option pyval) (w : world) (t : txn),
+  t_end t = EndCommit true ->
+  exists tr, honest tr /\ length tr = length (t_calls t)
+    /\ w_schema (run_tx conv w t) = w_schema w
+    /\ w_snaps (run_tx conv w t) = match flat_map snd tr with
+                                   | [] => w_snaps w
+                                   | fs => (current w ++ fs) :: w_snaps w
+                                   end.
+Proof. exact tx_commit_publishes. Qed.
+Print Assumptions C11_tx_publishes_accepted_only.
+
+(* A transaction that ends in a failed commit, a rollback, or is abandoned leaves schema, snapshot list
+   (with every snapshot's files) and the full scan unchanged. *)
+Theorem C11_tx_unpublished_no_trace : forall (conv : atype -> pyval -> option pyval) (w : world) (t : txn),
+  t_end t <> EndCommit true ->
+  w_schema (run_tx conv w t) = w_schema w /\ w_snaps (run_tx conv w t) = w_snaps w
+  /\ full_scan (run_tx conv w t) = full_scan w.
+Proof. exact tx_not_committed. Qed.
+Print Assumptions C11_tx_unpublished_no_trace.
+
+(* After any history of transactions (records and pre-built files, any handles) every file of the current
+   snapshot carries the table's Arrow schema: full scans do not raise. *)
+Theorem C11_tx_history_scans : forall (conv : atype -> pyval -> option pyval) (ts : ischema) (txs : list txn),
+  scan_ok (current (run_txs conv (init (Some ts)) txs)) = true
+  /\ full_scan (run_txs conv (init (Some ts)) txs) <> None.
+Proof. exact tx_history_scans. Qed.
+Print Assumptions C11_tx_history_scans.
+
 (* ---- Non-vacuity: a concrete table {a: long required (id 1); b: float optional (id 2)}, a concrete
    conversion oracle satisfying conv_sound and conv_kinds, and a history in which an identical
    argument under another schema id is accepted through a reused handle, a reordered one, a renumbered
@@ -167,3 +210,27 @@ Proof.
   split; [repeat constructor; simpl; intuition discriminate|].
   vm_compute. repeat split.
 Qed.
+
+(* Non-vacuity for transactions: on the same table, append_files([good; MISSING]) raises and the commit of that
+   transaction publishes nothing; a transaction with an accepted two-file call, a refused three-file call
+   whose LAST file has a divergent footer, and an accepted records call commits one snapshot of 3 files. *)
+Definition ex_good (i : Z) : pfile :=
+  {| pf_id := i; pf_canonical := true; pf_exists := true; pf_parquet := true; pf_footer := Some (arrow_of ex_fields);
+     pf_rows := [[(0, PV (VInt i)); (1, PV VNull)]] |}.
+Definition ex_missing : pfile :=
+  {| pf_id := 99; pf_canonical := true; pf_exists := false; pf_parquet := true; pf_footer := None; pf_rows := [] |}.
+Definition ex_divergent : pfile :=
+  {| pf_id := 98; pf_canonical := true; pf_exists := true; pf_parquet := true; pf_footer := Some (rev (arrow_of ex_fields)); pf_rows := [] |}.
+Definition ex_tx1 : txn := {| t_handle := 0; t_calls := [CFiles [ex_good 50; ex_missing]]; t_end := EndCommit true |}.
+Definition ex_tx2 : txn :=
+  {| t_handle := 0;
+     t_calls := [CFiles [ex_good 51; ex_good 52]; CFiles [ex_good 53; ex_good 54; ex_divergent];
+                 CRecords None [ex_rec (PV (VInt 7)) (PV VNull)]];
+     t_end := EndCommit true |}.
+
+Example C11_tx_nonvacuous :
+  w_snaps (run_tx ex_conv (init (Some ex_ts)) ex_tx1) = []
+  /\ map (map df_id) (w_snaps (run_txs ex_conv (init (Some ex_ts)) [ex_tx1; ex_tx2])) = [[51; 52; 0]]
+  /\ full_scan (run_txs ex_conv (init (Some ex_ts)) [ex_tx1; ex_tx2])
+     = Some [ [(0, PV (VInt 51)); (1, PV VNull)]; [(0, PV (VInt 52)); (1, PV VNull)]; [(0, PV (VInt 7)); (1, PV VNull)] ].
+Proof. vm_compute. repeat split. Qed.
